@@ -46,7 +46,7 @@ Lemma meets_aff_empty k pid p exp : kget pid k = Some p ->
   (forall x, In x (p_elig p) -> 0 <= x < 1024) -> p_elig p <> [] ->
   spec_req pid (Affinity (Some [])) k = Some exp -> run_req pid (Affinity (Some [])) k = exp.
 Proof.
-  intros Hg Hrng Hne. unfold spec_req, run_req, cpu_affinity. rewrite Hg. intros [= <-].
+  intros Hg Hrng Hne. unfold spec_req, spec_aff_set, run_req, cpu_affinity. rewrite Hg. intros [= <-].
   unfold pl_cpu_affinity_set.
   rewrite build_set_ok by (intros c Hc; apply zrange_In in Hc; lia).
   unfold sys_sched_setaffinity. rewrite Hg.
@@ -60,7 +60,7 @@ Lemma meets_aff_invalid k pid p c cs exp : kget pid k = Some p ->
   all_in (c :: cs) (p_elig p) = false ->
   spec_req pid (Affinity (Some (c :: cs))) k = Some exp -> run_req pid (Affinity (Some (c :: cs))) k = exp.
 Proof.
-  intros Hg Hall. unfold spec_req, run_req, cpu_affinity. rewrite Hg, Hall.
+  intros Hg Hall. unfold spec_req, spec_aff_set, run_req, cpu_affinity. rewrite Hg, Hall.
   destruct (none_in (c :: cs) (p_elig p)) eqn:Hnone; [|discriminate]. intros [= <-].
   assert (Hout : forall x, In x (c :: cs) -> memz x (p_elig p) = false).
   { intros x Hx. unfold none_in in Hnone. rewrite forallb_forall in Hnone. apply negb_true_iff. apply Hnone. exact Hx. }
@@ -74,6 +74,42 @@ Proof.
   rewrite (diagnose_value k pid p _ _ Hg). reflexivity.
 Qed.
 
+(* ------------------------------------------------ any iterable: only the first traversal counts *)
+Definition is_nil (l : list Z) : bool := match l with [] => true | _ => false end.
+
+Lemma aff_shape_as_list pid sh items k : oneshot sh && is_nil items = false ->
+  run_req pid (AffinityIt sh items) k = run_req pid (Affinity (Some items)) k.
+Proof.
+  intros H. unfold run_req, cpu_affinity_it, cpu_affinity, truthy, iterate. cbn [a_shape a_items a_consumed].
+  destruct (oneshot sh), items as [|c cs]; cbn in *; try discriminate; reflexivity.
+Qed.
+Lemma spec_shape_as_list pid sh items k : oneshot sh && is_nil items = false ->
+  spec_req pid (AffinityIt sh items) k = spec_req pid (Affinity (Some items)) k.
+Proof.
+  intros H. unfold spec_req. destruct (kget pid k); [|reflexivity]. fold (is_nil items). rewrite H. reflexivity.
+Qed.
+(* an empty one-shot iterator is truthy and yields nothing: the kernel refuses the empty mask *)
+Lemma aff_oneshot_empty k pid p sh : kget pid k = Some p -> oneshot sh = true ->
+  run_req pid (AffinityIt sh []) k = (Exc ValueError, k).
+Proof.
+  intros Hg Ho. unfold run_req, cpu_affinity_it, truthy, iterate. cbn [a_shape a_items a_consumed]. rewrite Ho. cbn [negb].
+  unfold pl_cpu_affinity_set. cbn [dedup nodup c_build_set existsb filter]. unfold sys_sched_setaffinity. rewrite Hg.
+  rewrite filter_none by (intros x _; reflexivity). rewrite (diagnose_value k pid p _ _ Hg). reflexivity.
+Qed.
+(* a one-shot iterable yields nothing on a second traversal *)
+Lemma second_traversal_empty a : oneshot (a_shape a) = true -> fst (iterate (snd (iterate a))) = [].
+Proof. intros H. unfold iterate. rewrite H. cbn [snd a_shape a_consumed]. rewrite H. reflexivity. Qed.
+
+Lemma meets_aff_list k pid p cpus exp : kget pid k = Some p -> wf_facts p -> p_elig p <> [] ->
+  spec_req pid (Affinity (Some cpus)) k = Some exp -> run_req pid (Affinity (Some cpus)) k = exp.
+Proof.
+  intros Hg F Hne Hspec. destruct cpus as [|c cs].
+  - exact (meets_aff_empty k pid p exp Hg (wf_elig_rng p F) Hne Hspec).
+  - destruct (all_in (c :: cs) (p_elig p)) eqn:Hall.
+    + exact (meets_aff_valid k pid p c cs exp Hg (wf_elig_rng p F) Hall Hspec).
+    + exact (meets_aff_invalid k pid p c cs exp Hg Hall Hspec).
+Qed.
+
 (* ------------------------------------------------ assembled *)
 Theorem model_meets_spec k pid p r exp :
   wf_kernelb k = true -> kget pid k = Some p -> wf_procb k p = true -> pid <> 0 ->
@@ -85,15 +121,16 @@ Proof.
   assert (Hne : p_elig p <> []).
   { intros E. pose proof (wf_mask_ne p F) as Hm. pose proof (wf_mask_sub p F) as Hs.
     destruct (p_mask p) as [|x xs]; [congruence|]. specialize (Hs x (or_introl eq_refl)). rewrite E in Hs. destruct Hs. }
-  destruct r as [v|c v|cpus|res lim|res sv].
+  destruct r as [v|c v|cpus|sh items|res lim|res sv].
   - exact (meets_nice k pid p v exp Hg Hspec).
   - exact (meets_ionice k pid p c v exp Hg (reported_range k p (wf_nice p F) (wf_io p F)) Hspec).
-  - destruct cpus as [[|c cs]|].
-    + exact (meets_aff_empty k pid p exp Hg (wf_elig_rng p F) Hne Hspec).
-    + destruct (all_in (c :: cs) (p_elig p)) eqn:Hall.
-      * exact (meets_aff_valid k pid p c cs exp Hg (wf_elig_rng p F) Hall Hspec).
-      * exact (meets_aff_invalid k pid p c cs exp Hg Hall Hspec).
+  - destruct cpus as [cpus|].
+    + exact (meets_aff_list k pid p cpus exp Hg F Hne Hspec).
     + exact (meets_aff_get k pid p exp Hg Hnr (wf_mask_sorted p F) Hspec).
+  - destruct (oneshot sh && is_nil items) eqn:E.
+    + unfold spec_req in Hspec. rewrite Hg in Hspec. fold (is_nil items) in Hspec. rewrite E in Hspec. discriminate.
+    + rewrite (spec_shape_as_list pid sh items k E) in Hspec. rewrite (aff_shape_as_list pid sh items k E).
+      exact (meets_aff_list k pid p items exp Hg F Hne Hspec).
   - exact (meets_rlimit k pid p res lim exp Hg Hpid (wf_rlim_len p F) Hspec).
   - unfold spec_req in Hspec. rewrite Hg in Hspec. discriminate.
 Qed.
